@@ -380,3 +380,57 @@ def analyse(stream):
 def hostile_name(n):
     """the class of names the D13 finding is about"""
     return b"/" in n or n == b".."
+
+
+# ---------------------------------------------------------------------------------------------------------------
+# process pools: every case of C11/C12 is independent of every other (own jail, own forked receiver, one model line
+# -> one answer line), so a batch is cut into contiguous pieces that run in up to POOL harness / model processes at a
+# time; answers come back in the order of the cases, whatever the number of workers (deterministic).
+
+def pool_size():
+    try:
+        n = len(os.sched_getaffinity(0))
+    except AttributeError:
+        n = os.cpu_count() or 1
+    return max(1, min(int(os.environ.get("VERIF_PCP_POOL", "8")), n))
+
+
+def _pieces(n, k, per=1):
+    """cut range(n) into contiguous pieces: about `per` pieces per worker, so that one slow piece does not
+    leave the other workers idle"""
+    if n == 0:
+        return []
+    m = max(1, min(n, k * per))
+    size = (n + m - 1) // m
+    return [(a, min(a + size, n)) for a in range(0, n, size)]
+
+
+def par_batch(cmd, seqs, timeout=1800, env=None):
+    """vlib.seqrun.run_batch over a pool of harness processes"""
+    from concurrent.futures import ThreadPoolExecutor
+    from vlib.seqrun import run_batch
+    k = pool_size()
+    if k == 1 or len(seqs) < 8:
+        return run_batch(cmd, seqs, timeout=timeout, env=env)
+    pcs = _pieces(len(seqs), k, per=3)
+    with ThreadPoolExecutor(max_workers=k) as ex:
+        parts = list(ex.map(lambda ab: run_batch(cmd, seqs[ab[0]:ab[1]], timeout=timeout, env=env), pcs))
+    return [r for p in parts for r in p]
+
+
+def par_model(ctx, engine, lines, timeout=1800):
+    """ctx.model over a pool of model-driver processes; `lines` = list of protocol lines (no newline), one answer each"""
+    from concurrent.futures import ThreadPoolExecutor
+    k = pool_size()
+    if k == 1 or len(lines) < 8:
+        return ctx.model(engine, "".join(l + "\n" for l in lines), timeout=timeout)
+    pcs = _pieces(len(lines), k, per=3)
+
+    def one(ab):
+        out = ctx.model(engine, "".join(l + "\n" for l in lines[ab[0]:ab[1]]), timeout=timeout)
+        if len(out) != ab[1] - ab[0]:
+            raise RuntimeError("model driver: %d answers for %d lines" % (len(out), ab[1] - ab[0]))
+        return out
+    with ThreadPoolExecutor(max_workers=k) as ex:
+        parts = list(ex.map(one, pcs))
+    return [r for p in parts for r in p]
